@@ -28,9 +28,11 @@ type tryRLocker interface {
 	RUnlock()
 }
 
-func MuLock(mu tryLocker, site int32)           { mu.Lock() }
-func MuUnlock(mu tryLocker, site int32)         { mu.Unlock() }
-func MuRLock(mu tryRLocker, site int32)         { mu.RLock() }
-func MuRUnlock(mu tryRLocker, site int32)       { mu.RUnlock() }
-func OnceDo(o *sync.Once, f func(), site int32) { o.Do(f) }
-func AP(s interface{}, site int32) interface{}  { return s }
+func MuLock(mu tryLocker, site int32)                 { mu.Lock() }
+func MuUnlock(mu tryLocker, site int32)               { mu.Unlock() }
+func MuRLock(mu tryRLocker, site int32)               { mu.RLock() }
+func MuRUnlock(mu tryRLocker, site int32)             { mu.RUnlock() }
+func OnceDo(o *sync.Once, f func(), site int32)       { o.Do(f) }
+func PoolGet(p *sync.Pool, site int32) interface{}    { return p.Get() }
+func PoolPut(p *sync.Pool, site int32, v interface{}) { p.Put(v) }
+func AP(s interface{}, site int32) interface{}        { return s }
